@@ -1,9 +1,23 @@
 (** Protocol operations for C14 (see Lib/Val.v).
     [bitmap.Join]  [vs; w]        -> [words; unchanged]   (unchanged = 1 iff the input slice is as before the call)
     [bitmap.Getw]  [vs; w]        -> [Getw(Join(vs,w), i, w) for every i < len(vs)]
-    [bitmap.Slice] [ws; from; to] -> [words; unchanged] *)
+    [bitmap.Slice] [ws; from; to] -> [words; unchanged]
+    widening:
+    [bitmap.Masks]      [j]          -> [Mask[j]; RMask[j]; MaskUpto[j]; RMaskUpto[j]; Bit[j]; RBit[j]] (P per entry)
+    [bitmap.Getw/any]   [bm; i; w]   -> Getw(bm, i, w) on any bitmap and any int32 index (P = panic);
+                                        judged by the specification only while i*w fits int32
+    [bitmap.Join/split] [bm; w]      -> Join([Getw(bm, i, w) for i < 64*len(bm)/w], w); must be bm again
+    [bitmap.Slice/ToArray] [ws; from; to] -> ToArray(Slice(ws, from, to))
+    [bitmap.Slice/Slice] [ws; a; b; c; d] -> Slice(Slice(ws, a, b), c, d); must be the slice [a+c, a+d) of ws
+    [bitmap.Slice/Rank64] [ws; a; b; trailing; j] -> Rank64(r, IndexRank64(r, trailing), j) with r = Slice(ws, a, b): [count, bit]
+    [bitmap.Slice/NextOne] [ws; a; b; j] -> NextOne(r, j, b-a);  [bitmap.Slice/PrevOne] likewise
+    [bitmap.Join/Slice] [vs; w; k; m] -> Slice(Join(vs, w), k*w, m*w); must be Join of elements k..m-1
+    [bitmap.Fmt] [kind; is_slice; vals] -> the string Fmt returns (byte list), P = panic; kind 0..7 = int8, uint8,
+                                           int16, uint16, int32, uint32, int64, uint64, 8 = string (not an integer) *)
 From Coq Require Import ZArith List Bool String.
-From Low Require Import Lib.Bits Lib.BitSeq Lib.Val Model.BitmapJoin Spec.JoinSpec.
+From Low Require Import Lib.Bits Lib.BitSeq Lib.Val Model.BitmapJoin Spec.JoinSpec
+  Model.BitmapMask Spec.MaskSpec Model.BitmapGetw32 Spec.GetwSpec
+  Model.BitmapSliceArray Spec.SliceArraySpec Model.BitmapFmt Spec.FmtSpec Spec.SliceComposeSpec.
 Import ListNotations.
 Open Scope string_scope.
 Open Scope Z_scope.
@@ -16,6 +30,9 @@ Definition indices {A} (l : list A) : list Z := map Z.of_nat (seq 0 (List.length
 (** the model leaves its argument unchanged by construction (values are immutable): flag 1 *)
 Definition with_flag (o : option (list Z)) : val :=
   match o with Some r => VL [vzs r; VZ 1] | None => VPanic end.
+
+Definition vopt_z (o : option Z) : val := match o with Some z => VZ z | None => VPanic end.
+Definition vopt_zs (o : option (list Z)) : val := match o with Some r => vzs r | None => VPanic end.
 
 Definition ops_C14 : list opdef := [
   {| op_name := "bitmap.Join";
@@ -58,5 +75,128 @@ Definition ops_C14 : list opdef := [
            | Some ws, Some from, Some to, VL [r; VZ 1] =>
                match as_zs r with Some r => spec_Slice_ok ws from to r | None => false end
            | _, _, _, _ => false end
-       | _ => false end |}
+       | _ => false end |};
+  {| op_name := "bitmap.Masks";
+     op_run := fun a => match a with
+       | [VZ j] => VL (map vopt_z (mask_lookups initMasks j))
+       | _ => VBad end;
+     op_spec := fun_spec (fun a => match a with
+       | [VZ j] => VL (map vopt_z (spec_mask_lookups j))
+       | _ => VBad end) |};
+  {| op_name := "bitmap.Getw/any";
+     op_run := fun a => match a with
+       | [bm; i; w] => match as_zs bm, as_z i, as_z w with
+           | Some bm, Some i, Some w =>
+               if words_okb bm && width_okb w && fits_i32 i then vopt_z (Getw32 bm i w) else VBad
+           | _, _, _ => VBad end
+       | _ => VBad end;
+     op_spec := fun a obs => match a with
+       | [bm; i; w] => match as_zs bm, as_z i, as_z w with
+           | Some bm, Some i, Some w =>
+               if fits_i32 (i * w) then val_eqb (vopt_z (spec_Getw_any bm i w)) obs else true
+           | _, _, _ => false end
+       | _ => false end |};
+  {| op_name := "bitmap.Join/split";
+     op_run := fun a => match a with
+       | [bm; w] => match as_zs bm, as_z w with
+           | Some bm, Some w => if words_okb bm && width_okb w then vopt_zs (SplitJoin bm w) else VBad
+           | _, _ => VBad end
+       | _ => VBad end;
+     op_spec := fun_spec (fun a => match a with
+       | [bm; w] => bm
+       | _ => VBad end) |};
+  {| op_name := "bitmap.Slice/ToArray";
+     op_run := fun a => match a with
+       | [ws; from; to] => match as_zs ws, as_z from, as_z to with
+           | Some ws, Some from, Some to =>
+               if words_okb ws && slice_dom ws from to then vopt_zs (SliceToArray ws from to) else VBad
+           | _, _, _ => VBad end
+       | _ => VBad end;
+     op_spec := fun_spec (fun a => match a with
+       | [ws; from; to] => match as_zs ws, as_z from, as_z to with
+           | Some ws, Some from, Some to => vzs (spec_SliceArray ws from to)
+           | _, _, _ => VBad end
+       | _ => VBad end) |};
+  {| op_name := "bitmap.Slice/Slice";
+     op_run := fun a => match a with
+       | [ws; VZ a; VZ b; VZ c; VZ d] => match as_zs ws with
+           | Some ws =>
+               if words_okb ws && slice_dom ws a b && (0 <=? c) && (c <=? d) && (d <=? b - a)
+               then vopt_zs (SliceSlice ws a b c d) else VBad
+           | None => VBad end
+       | _ => VBad end;
+     op_spec := fun a obs => match a with
+       | [ws; VZ a; VZ b; VZ c; VZ d] => match as_zs ws, as_zs obs with
+           | Some ws, Some r => spec_Slice_ok ws (a + c) (a + d) r
+           | _, _ => false end
+       | _ => false end |};
+  {| op_name := "bitmap.Slice/Rank64";
+     op_run := fun a => match a with
+       | [ws; VZ a; VZ b; VZ tr; VZ j] => match as_zs ws with
+           | Some ws =>
+               if words_okb ws && slice_dom ws a b && (0 <=? j) && (j <? b - a)
+               then match SliceRank64 ws a b (negb (tr =? 0)) j with
+                    | Some (n, bit) => VL [VZ n; VZ bit] | None => VPanic end
+               else VBad
+           | None => VBad end
+       | _ => VBad end;
+     op_spec := fun_spec (fun a => match a with
+       | [ws; VZ a; VZ b; VZ tr; VZ j] => match as_zs ws with
+           | Some ws => let (n, bit) := spec_SliceRank ws a j in VL [VZ n; VZ bit]
+           | None => VBad end
+       | _ => VBad end) |};
+  {| op_name := "bitmap.Slice/NextOne";
+     op_run := fun a => match a with
+       | [ws; VZ a; VZ b; VZ j] => match as_zs ws with
+           | Some ws =>
+               if words_okb ws && slice_dom ws a b && (0 <=? j) && (j <? b - a)
+               then vopt_z (SliceNextOne ws a b j) else VBad
+           | None => VBad end
+       | _ => VBad end;
+     op_spec := fun_spec (fun a => match a with
+       | [ws; VZ a; VZ b; VZ j] => match as_zs ws with
+           | Some ws => VZ (spec_SliceNext ws a b j)
+           | None => VBad end
+       | _ => VBad end) |};
+  {| op_name := "bitmap.Slice/PrevOne";
+     op_run := fun a => match a with
+       | [ws; VZ a; VZ b; VZ j] => match as_zs ws with
+           | Some ws =>
+               if words_okb ws && slice_dom ws a b && (0 <=? j) && (j <? b - a)
+               then vopt_z (SlicePrevOne ws a b j) else VBad
+           | None => VBad end
+       | _ => VBad end;
+     op_spec := fun_spec (fun a => match a with
+       | [ws; VZ a; VZ b; VZ j] => match as_zs ws with
+           | Some ws => VZ (spec_SlicePrev ws a b j)
+           | None => VBad end
+       | _ => VBad end) |};
+  {| op_name := "bitmap.Join/Slice";
+     op_run := fun a => match a with
+       | [vs; VZ w; VZ k; VZ m] => match as_zs vs with
+           | Some vs =>
+               if words_okb vs && width_okb w && (0 <=? k) && (k <=? m) && (m <=? zlen vs)
+               then vopt_zs (JoinSlice vs w k m) else VBad
+           | None => VBad end
+       | _ => VBad end;
+     op_spec := fun a obs => match a with
+       | [vs; VZ w; VZ k; VZ m] => match as_zs vs, as_zs obs with
+           | Some vs, Some r => spec_Join_ok (sublist vs k m) w r
+           | _, _ => false end
+       | _ => false end |};
+  {| op_name := "bitmap.Fmt";
+     op_run := fun a => match a with
+       | [VZ kind; VZ sl; vals] => match as_zs vals with
+           | Some vals =>
+               let is_slice := negb (sl =? 0) in
+               if (0 <=? kind) && (kind <=? 8) && forallb (kind_range kind) vals
+                  && (is_slice || (List.length vals =? 1)%nat)
+               then vopt_zs (Fmt kind is_slice vals) else VBad
+           | None => VBad end
+       | _ => VBad end;
+     op_spec := fun_spec (fun a => match a with
+       | [VZ kind; VZ sl; vals] => match as_zs vals with
+           | Some vals => vopt_zs (spec_Fmt kind (negb (sl =? 0)) vals)
+           | None => VBad end
+       | _ => VBad end) |}
 ].
